@@ -436,6 +436,18 @@ XalanDOMString::insert(
 
         assert(length() == theCount);
     }
+    else if (theCount != 0 &&
+             theString >= &*m_data.begin() &&
+             theString < &*m_data.begin() + m_data.size())
+    {
+        // The source is part of this string: copy it first, because the
+        // vector moves the tail over it before it reads the source.
+        const XalanDOMCharVectorType    theTemp(theString, theString + theCount, getMemoryManager());
+
+        m_data.insert(getIteratorForPosition(thePosition), theTemp.begin(), theTemp.end());
+
+        m_size += theCount;
+    }
     else
     {
         m_data.insert(getIteratorForPosition(thePosition), theString, theString + theCount);
